@@ -183,7 +183,7 @@ func ruleDeferredErrorReachesCaller(c *core.Ctx) {
 	var bad []finding
 	for _, pkg := range c.Prog.RepoPkgs() {
 		sp := core.ShortPkg(pkg.PkgPath)
-		if !(sp == "pdf" || strings.HasPrefix(sp, "pdf/internal/filter")) || strings.HasSuffix(sp, "/generate") {
+		if !exploreAll && (!(sp == "pdf" || strings.HasPrefix(sp, "pdf/internal/filter")) || strings.HasSuffix(sp, "/generate")) {
 			continue
 		}
 		for _, fn := range c.Prog.Funcs(pkg) {
@@ -266,3 +266,8 @@ func ruleDeferredErrorReachesCaller(c *core.Ctx) {
 		}
 	})
 }
+
+
+// exploreAll widens the generic rules to every loaded repository package
+// (used by the exploration-only property X00, never by a registered command).
+var exploreAll bool
